@@ -59,6 +59,17 @@ func init() {
 		},
 	})
 	core.Register(&core.Property{
+		ID:         "C12",
+		Decided:    "Decides that the caller's input reaches only len() and the source side of a copy in the Unmarshal entry points, that every slice a Marshal entry point returns is freshly made and filled before the pooled context is released, that in stream mode UnmarshalJSON/UnmarshalText receive fresh copies, and that in-place unescaping only ever rewrites memory the library allocated; it does not decide absence of aliasing for every value.",
+		NotCovered: "that the stream window never moves over strings already handed out, RawMessage/[]byte destinations in stream mode, what user callbacks do with the slices they get.",
+		Rules: []*core.Rule{
+			{ID: "C12.R1", Title: "in unmarshal/unmarshalContext/unmarshalNoEscape/extractFromPath the data parameter (and slices of it) is used only by len() and as the source of copy()", Covers: "Unmarshal never modifies or retains the caller's input bytes", Min: 12, Run: c12r1},
+			{ID: "C12.R2", Title: "every non-nil []byte returned by marshal/marshalContext/marshalNoEscape/marshalIndent is a MakeSlice filled by copy, and the copy precedes ReleaseRuntimeContext", Covers: "returned encodings are exclusively the caller's", Min: 8, Run: c12r2},
+			{ID: "C12.R3", Title: "every []byte passed to an UnmarshalJSON/UnmarshalText callback in a function with a *Stream parameter originates only from make/alloc in that call", Covers: "bytes handed to callbacks are not overwritten by later reads of the stream", Min: 8, Run: c12r3},
+			{ID: "C12.R4", Title: "every operand of unescapeString, traced through callers, originates from RuntimeContext.Buf, Stream.buf or fresh memory; ctx.Buf is only set to a slice made in the same call", Covers: "in-place rewriting never touches caller memory", Min: 5, Run: c12r4},
+		},
+	})
+	core.Register(&core.Property{
 		ID:         "C13",
 		Decided:    "Decides that the four generated interpreters (and their template) have the same handler for every opcode, that the compact and indent marshaler helpers take the same decisions apart from the formatter call, that the colour wrappers only bracket the plain helpers with one format's header and footer, that each option combination dispatches to the interpreter it names, that every entry point resets the pooled flags and sets the same defaults, and that the separator protocol is consistent per package (C03.R3); it does not decide byte equality of the outputs.",
 		NotCovered: "byte equality of outputs across variants, the relation MarshalIndent(v) == Indent(Marshal(v)), UnorderedMap's effect, top-level vs pointer vs interface encodings.",
